@@ -445,7 +445,7 @@ fn run(tier: Tier, _s: usize, _n: usize, _seed: u64) -> Partial {
         st.enter();
         st.check_invariants(&mut out, &[i as u16]);
     }
-    let bfs = Bfs { max_depth: depth(tier), max_states: if tier.is_quick() { 3_000_000 } else { 30_000_000 }, threads: super::cores() };
+    let bfs = Bfs { max_depth: depth(tier), max_states: if tier.is_quick() { 3_000_000 } else { 30_000_000 }, threads: super::cores(), collect_paths: false };
     let stats = bfs.run(inits, &mut out);
     out.notes.push(format!(
         "alphabet {}, depth {}, states {}, transitions {}, frontier sizes {:?}{}",
